@@ -224,11 +224,27 @@ def gen_frame(cs, lab):
         if k == "float":
             data[c] = np.array(vals, dtype=np.float64)
         elif k == "int":
-            data[c] = np.array(vals, dtype=np.int64)
+            # integer columns come in every width and signedness that holds
+            # their values (frames built from typed arrays, rasters, counters)
+            if min(vals) >= 0 and cs.flip(f"{lab}.v{j}.ubig", 8):
+                r0 = cs.draw(f"{lab}.v{j}.ubig.r", nrow)
+                vals[r0] = (1 << 64) - 1 - cs.draw(f"{lab}.v{j}.ubig.v", 1000)
+                cells[c] = vals
+            fits = [dt for dt in ("int64", "int64", "int32", "int16", "int8",
+                                  "uint8", "uint16", "uint32", "uint64")
+                    if np.iinfo(dt).min <= min(vals)
+                    and max(vals) <= np.iinfo(dt).max]
+            dt = fits[cs.draw(f"{lab}.v{j}.width", len(fits))]
+            if dt != "int64":
+                ctx_hit_width[0] += 1
+            data[c] = np.array(vals, dtype=dt)
         else:
             data[c] = vals
     df = pd.DataFrame(data, columns=cols)
     return df, {"cols": cols, "kinds": kinds, "cells": cells, "nrow": nrow}
+
+
+ctx_hit_width = [0]     # integer columns of another width than int64 (probe)
 
 
 def gen_comment(cs, lab):
@@ -273,13 +289,18 @@ def compare(df, comment, rec, where, opkind):
                     bad("text_cell_differs", f"[{r},{c!r}] {g!r} != {w!r}")
             elif k == "int":
                 try:
-                    ok = int(g) == w and float(g) == float(int(g))
+                    # a number, equal to the one written (text that merely
+                    # spells the number is not a numeric value)
+                    ok = not isinstance(g, (str, bytes)) and \
+                        int(g) == w and float(g) == float(int(g))
                 except Exception:
                     ok = False
                 if not ok:
                     bad("int_cell_differs", f"[{r},{c!r}] {g!r} != {w!r}")
             else:
                 try:
+                    if isinstance(g, (str, bytes)):
+                        raise TypeError("text")
                     g = float(g)
                 except Exception:
                     bad("float_cell_differs", f"[{r},{c!r}] {g!r} not a number"
@@ -730,6 +751,11 @@ class World:
             self.log.ev("disk_fault_write", lname, mode, lim, fm["cols"],
                         fm["nrow"], comment, fmt, wsi)
             failed = None
+            # the handle a failed write_csv leaves open is finalised below; the
+            # ResourceWarning about it is not what this operation is about
+            wctx = warnings.catch_warnings()
+            wctx.__enter__()
+            warnings.simplefilter("ignore", ResourceWarning)
             try:
                 if lim is None:
                     csvmod.write_csv(df, farg, comment, self.script,
@@ -743,6 +769,7 @@ class World:
             except Exception as e:
                 failed = repr(e)
             gc.collect()   # handles the failed call leaked are finalised now
+            wctx.__exit__(None, None, None)
             if failed is not None:
                 if lim is None:
                     raise Violation("write_failed", f"write_csv of {lname} in "
@@ -966,6 +993,8 @@ def run(cs, log, ctx):
             w.op_restart(csvmod)
         if w.wrote and w.compared:
             ctx.hit("nontrivial")
+        if ctx_hit_width[0]:
+            ctx.hit("probe.integer_column_of_other_width", ctx_hit_width[0])
     finally:
         csvmod.datetime = real_dt
         csvmod.getuser = real_getuser
